@@ -287,6 +287,9 @@ func build(c *run.Case, w *run.Worker, sc *scenario) (*world, bool) {
 	}
 	if sc.keyed {
 		w.Count("scenarios_instance_aware_replicas", 1)
+		if wd.reps[0].ls != nil || wd.reps[1].ls != nil {
+			w.Count("scenarios_hierarchical_local_replicas", 1)
+		}
 	}
 	for i, r := range wd.reps {
 		bit := 1 << i
@@ -818,8 +821,10 @@ func (wd *world) run() [2]int {
 }
 
 // noteRepair is coverage bookkeeping: a repair INTO replica `to` is due for the
-// object. It counts the repairs of contents that were already copied into the
-// same replica under ANOTHER instance name earlier in the scenario - the
+// object. It counts the "sibling repairs": repairs of contents that were
+// already copied into the same replica under ANOTHER instance name earlier in
+// the scenario (..._keyed: the replicas distinguish instance names; ..._cfg:
+// configuration-built replicators; ..._queued: the queued strategy) - the
 // history in which a strategy that remembers what it copied (queued: existence
 // cache; deduplicating: in-flight map) must key its memory the way the sink
 // keys its objects.
@@ -831,11 +836,14 @@ func (wd *world) noteRepair(to int, ob object) {
 		wd.repaired[to][ob.content] = m
 	}
 	if !m[in] && len(m) > 0 {
-		wd.w.Count("repairs_due_after_same_contents_repaired_under_other_instance_name", 1)
+		wd.w.Count("sibling_repairs", 1)
 		if wd.sc.keyed {
-			wd.w.Count("repairs_due_after_sibling_repair_instance_aware_replicas", 1)
+			wd.w.Count("sibling_repairs_keyed", 1)
 			if wd.sc.cfgBuilt {
-				wd.w.Count("repairs_due_after_sibling_repair_instance_aware_cfg_built", 1)
+				wd.w.Count("sibling_repairs_keyed_cfg", 1)
+				if wd.sc.repl[1-to] == replQueued {
+					wd.w.Count("sibling_repairs_keyed_cfg_queued", 1)
+				}
 			}
 		}
 	}
